@@ -80,3 +80,23 @@ Theorem C07_network_is_R_minus_diag R i j :
   network_of R i i = false /\ (i <> j -> network_of R i j = R i j).
 Proof. exact (network_is_R_minus_diag R i j). Qed.
 Print Assumptions C07_network_is_R_minus_diag.
+
+(* ---- the distance kernels AS WRITTEN IN THE CURRENT numerics.pyx (regenerated
+        on every run: loop ranges, cells, per-dimension update over NaN-able
+        samples, root) are the model's state distances ---- *)
+From PV.Gen Require Import RecurrenceK.
+From PV.Proofs Require Import RecurrenceGen.
+
+Theorem C07_distance_kernels_are_model a b :
+  gen_state_dist gen_manhattan_step a b = state_dist Manhattan a b /\
+  gen_state_dist gen_euclidean_step a b = state_dist Euclidean a b /\
+  gen_state_dist gen_supremum_step a b = state_dist Supremum a b.
+Proof. exact (gen_kernels_are_state_dist a b). Qed.
+Print Assumptions C07_distance_kernels_are_model.
+
+Theorem C07_distance_kernel_facts :
+  gen_manhattan_takes_root = false /\ gen_euclidean_takes_root = true /\
+  gen_supremum_takes_root = false /\ gen_manhattan_crp_same = true /\
+  gen_euclidean_crp_same = true /\ gen_supremum_crp_same = true.
+Proof. exact gen_kernel_facts. Qed.
+Print Assumptions C07_distance_kernel_facts.
